@@ -9,6 +9,7 @@ import (
 	"math/rand"
 	"net/http"
 	"net/http/httptest"
+	"net/netip"
 	"os"
 	"strconv"
 	"strings"
@@ -18,6 +19,7 @@ import (
 
 	"github.com/Dash-Industry-Forum/livesim2/cmd/livesim2/app"
 
+	"verifharness/srv"
 	"verifharness/tr"
 )
 
@@ -34,6 +36,37 @@ type addr struct {
 }
 
 const whiteBlocks = "192.168.0.0/16,2001:db8:ffff::/48"
+
+// blockSets: white-list configurations, including nested and overlapping blocks in both orders.
+var blockSets = []string{
+	whiteBlocks,
+	"10.0.0.0/24,10.0.0.0/8",
+	"10.0.0.0/8,10.0.0.0/24",
+	"192.168.0.0/24,192.168.0.0/16,2001:db8::/64,2001:db8::/32",
+	"10.0.1.0/24,10.0.0.0/16,10.0.0.7/32",
+	"2001:db8:ffff::/48,2001:db8::1/128,203.0.113.0/24",
+	"10.0.2.0/23,10.0.0.0/22,192.168.1.0/24",
+	"",
+}
+
+// inBlocks decides white-list membership independently of the limiter (net/netip prefixes; the
+// limiter uses net.IPNet). A key that is not one address (several forwarded hops) is in no block.
+func inBlocks(blocks, ip string) bool {
+	a, err := netip.ParseAddr(ip)
+	if err != nil || blocks == "" {
+		return false
+	}
+	for _, b := range strings.Split(blocks, ",") {
+		p, err := netip.ParsePrefix(b)
+		if err != nil {
+			panic(err)
+		}
+		if p.Masked().Contains(a) {
+			return true
+		}
+	}
+	return false
+}
 
 func mkAddr(i int) addr {
 	switch i % 5 {
@@ -55,6 +88,8 @@ type recorder struct {
 	w     *tr.W
 	start time.Time
 	wl    map[string]bool
+	// bindStart: take the start time from the limiter at its first Inc
+	bindStart bool
 }
 
 // hook is installed as app.VerifHook; it runs inside Inc's critical section.
@@ -64,6 +99,11 @@ func (r *recorder) hook(ev string, kv ...any) {
 	}
 	il := kv[0].(*app.IPRequestLimiter)
 	now := kv[1].(time.Time)
+	if r.bindStart {
+		// limiter made by SetupServer: its start time is its reset time as long as no interval has elapsed
+		r.bindStart = false
+		r.start = il.ResetTime
+	}
 	ip := kv[2].(string)
 	nr := *(kv[3].(*int))
 	maxNr := *(kv[4].(*int))
@@ -102,7 +142,7 @@ func Main(args []string) error {
 		if err != nil {
 			panic(err)
 		}
-		w.Emit(tr.E{"ev": "hdr", "sc": nScen, "max": max, "interval": int(interval / time.Millisecond)})
+		w.Emit(tr.E{"ev": "hdr", "sc": nScen, "max": max, "interval": int(interval / time.Millisecond), "blocks": blocks})
 		nScen++
 		return il
 	}
@@ -144,21 +184,16 @@ func Main(args []string) error {
 			max := []int{1, 2, 3, 10, 100}[rng.Intn(5)]
 			intervalMS := []int{1, 10, 1000, 60_000, 86_400_000 / 64}[rng.Intn(5)]
 			nAddr := 1 + rng.Intn(50)
-			blocks := whiteBlocks
-			if rng.Intn(4) == 0 {
-				blocks = ""
-			}
+			blocks := blockSets[(s+int(*seed))%len(blockSets)]
 			addrs := make([]addr, nAddr)
 			for i := range addrs {
 				addrs[i] = mkAddr(rng.Intn(1000))
-				if blocks == "" {
-					addrs[i].wl = false
-				}
+				addrs[i].wl = inBlocks(blocks, addrs[i].ip)
 				rec.wl[addrs[i].ip] = addrs[i].wl
 			}
 			il := newLimiter(max, time.Duration(intervalMS)*time.Millisecond, blocks)
 			t := 0
-			sig := fmt.Sprintf("m%d i%d a%d b%v:", max, intervalMS, nAddr, blocks != "")
+			sig := fmt.Sprintf("m%d i%d a%d b%s:", max, intervalMS, nAddr, blocks)
 			for i := 0; i < *n; i++ {
 				// time steps: mostly small, sometimes exactly to / just beyond the interval boundary, sometimes backwards
 				switch rng.Intn(12) {
@@ -203,12 +238,14 @@ func Main(args []string) error {
 			maxReq := []int{1, 3, 25}[rng.Intn(3)]
 			intervalMS := []int{5, 50, 1000}[rng.Intn(3)]
 			nAddr := 1 + rng.Intn(8)
+			blocks := blockSets[(s+1+int(*seed))%len(blockSets)]
 			addrs := make([]addr, nAddr)
 			for i := range addrs {
 				addrs[i] = mkAddr(rng.Intn(40))
+				addrs[i].wl = inBlocks(blocks, addrs[i].ip)
 				rec.wl[addrs[i].ip] = addrs[i].wl
 			}
-			il := newLimiter(maxReq, time.Duration(intervalMS)*time.Millisecond, whiteBlocks)
+			il := newLimiter(maxReq, time.Duration(intervalMS)*time.Millisecond, blocks)
 			var clock sync.Mutex
 			vt := 0
 			var wg sync.WaitGroup
@@ -242,17 +279,19 @@ func Main(args []string) error {
 			maxReq := 3 + s*4
 			interval := 400 * time.Millisecond
 			rec.start = time.Now()
-			il, err := app.NewIPRequestLimiter(maxReq, interval, rec.start, whiteBlocks, "")
+			blocks := blockSets[(s*3+int(*seed))%len(blockSets)]
+			il, err := app.NewIPRequestLimiter(maxReq, interval, rec.start, blocks, "")
 			if err != nil {
 				return err
 			}
-			w.Emit(tr.E{"ev": "hdr", "sc": nScen, "max": maxReq, "interval": int(interval / time.Millisecond), "http": true})
+			w.Emit(tr.E{"ev": "hdr", "sc": nScen, "max": maxReq, "interval": int(interval / time.Millisecond), "http": true, "blocks": blocks})
 			nScen++
 			next := http.HandlerFunc(func(w http.ResponseWriter, r *http.Request) { w.WriteHeader(204) })
 			h := app.NewLimiterMiddleware("Livesim2-Requests", il)(next)
-			addrs := []addr{mkAddr(0), mkAddr(1), mkAddr(2), mkAddr(4), mkAddr(5)}
-			for _, a := range addrs {
-				rec.wl[a.ip] = a.wl
+			addrs := []addr{mkAddr(0), mkAddr(1), mkAddr(2), mkAddr(4), mkAddr(5), mkAddr(503), mkAddr(750)}
+			for i := range addrs {
+				addrs[i].wl = inBlocks(blocks, addrs[i].ip)
+				rec.wl[addrs[i].ip] = addrs[i].wl
 			}
 			do := func(a addr, forwarded bool) {
 				req := httptest.NewRequest("GET", "/livesim2/x.mpd", nil)
@@ -294,6 +333,83 @@ func Main(args []string) error {
 			}
 			w.Emit(tr.E{"ev": "end", "http": true})
 			distinct["http"+strconv.Itoa(s)] = true
+		}
+	}
+
+	// (V) server level: the limiter as SetupServer wires it (white-list blocks from the configuration, /livesim2 and
+	// /vod behind the middleware, GET /reqcount reading the counter), real clock, interval 1 s
+	if *mode == "srv" || *mode == "all" {
+		for s := 0; s < 2; s++ {
+			maxReq := 2 + 3*s
+			blocks := blockSets[(s*5+1+int(*seed))%len(blockSets)]
+			rec.bindStart = true
+			sv, err := srv.New(srv.BundledAssets()+"/testpic_2s", func(c *app.ServerConfig) {
+				c.MaxRequests = maxReq
+				c.ReqLimitInt = 1
+				c.WhiteListBlocks = blocks
+			})
+			if err != nil {
+				return err
+			}
+			w.Emit(tr.E{"ev": "hdr", "sc": nScen, "max": maxReq, "interval": 1000, "http": true, "srv": true, "blocks": blocks})
+			nScen++
+			addrs := []addr{mkAddr(0), mkAddr(1), mkAddr(2), mkAddr(3), mkAddr(4), mkAddr(255), mkAddr(503), mkAddr(750)}
+			for i := range addrs {
+				addrs[i].wl = inBlocks(blocks, addrs[i].ip)
+				rec.wl[addrs[i].ip] = addrs[i].wl
+			}
+			var emu sync.Mutex
+			do := func(a addr, path string) {
+				r := sv.Do("GET", path, map[string]string{"X-Forwarded-For": a.ip}, nil)
+				hdr := r.Header.Get("Livesim2-Requests")
+				var nr, mx int
+				if _, err := fmt.Sscanf(hdr, "%d (max %d)", &nr, &mx); err != nil {
+					nr, mx = -999, -999
+				}
+				emu.Lock()
+				w.Emit(tr.E{"ev": "http", "a": a.ip, "nr": nr, "maxhdr": mx, "status": r.Status, "hdr": hdr})
+				emu.Unlock()
+			}
+			reqcount := func(a addr) {
+				r := sv.Do("GET", "/reqcount", map[string]string{"X-Forwarded-For": a.ip}, nil)
+				var c, mx int
+				if _, err := fmt.Sscanf(string(r.Body), "%d (max %d)", &c, &mx); err != nil {
+					c, mx = -999, -999
+				}
+				w.Emit(tr.E{"ev": "rc", "a": a.ip, "count": c, "max": mx, "status": r.Status})
+			}
+			for round := 0; round < 2; round++ {
+				for i := 0; i < (maxReq+2)*len(addrs); i++ {
+					a := addrs[i%len(addrs)]
+					do(a, []string{"/livesim2/none/Manifest.mpd", "/vod/none/Manifest.mpd"}[i%2])
+					if i%3 == 0 {
+						reqcount(addrs[(i/3)%len(addrs)])
+					}
+				}
+				for _, a := range addrs {
+					reqcount(a)
+				}
+				// concurrent burst with concurrent /reqcount reads (values not judged, only that they are answered)
+				var wg sync.WaitGroup
+				for g := 0; g < 6; g++ {
+					wg.Add(1)
+					go func() {
+						defer wg.Done()
+						for i := 0; i < 5; i++ {
+							do(addrs[(g+i)%len(addrs)], "/livesim2/none/x.m4s")
+							_ = sv.Get("/reqcount")
+						}
+					}()
+				}
+				wg.Wait()
+				for _, a := range addrs {
+					reqcount(a)
+				}
+				time.Sleep(1050 * time.Millisecond)
+			}
+			w.Emit(tr.E{"ev": "end", "http": true})
+			sv.Cancel()
+			distinct["srv"+strconv.Itoa(s)+blocks] = true
 		}
 	}
 
@@ -413,6 +529,42 @@ func raceChild(seed int64) error {
 				_ = il.Count("10.0.0.1")
 				_ = il.EndTime()
 				if i%50 == 0 {
+					time.Sleep(time.Millisecond)
+				}
+			}
+		}()
+	}
+	wg.Wait()
+	// the same with the limiter as the server wires it: limited routes and GET /reqcount concurrently
+	sv, err := srv.New(srv.BundledAssets()+"/testpic_2s", func(c *app.ServerConfig) {
+		c.MaxRequests = 50
+		c.ReqLimitInt = 1
+		c.WhiteListBlocks = whiteBlocks
+	})
+	if err != nil {
+		return err
+	}
+	defer sv.Cancel()
+	stop := time.Now().Add(1200 * time.Millisecond)
+	for g := 0; g < 6; g++ {
+		wg.Add(1)
+		go func() {
+			defer wg.Done()
+			for i := 0; time.Now().Before(stop); i++ {
+				_ = sv.Do("GET", "/livesim2/none/x.mpd", map[string]string{"X-Forwarded-For": fmt.Sprintf("10.0.0.%d", g%3+1)}, nil)
+				if i%20 == 0 {
+					time.Sleep(time.Millisecond)
+				}
+			}
+		}()
+	}
+	for g := 0; g < 2; g++ {
+		wg.Add(1)
+		go func() {
+			defer wg.Done()
+			for i := 0; time.Now().Before(stop); i++ {
+				_ = sv.Do("GET", "/reqcount", map[string]string{"X-Forwarded-For": fmt.Sprintf("10.0.0.%d", g+1)}, nil)
+				if i%20 == 0 {
 					time.Sleep(time.Millisecond)
 				}
 			}
